@@ -146,6 +146,8 @@ impl Run<'_> {
             // expected packets the driver transmits during this op: (op, peer, port, payload, flags)
             let mut want_tx: Vec<(u16, (u64, u32), u32, Vec<u8>, u32, u32)> = Vec::new();
             let mut skip_tx_check = false;
+            // indices into want_tx of replies sent on behalf of no connection (any buf_alloc)
+            let mut any_alloc: Vec<usize> = Vec::new();
             match op {
                 VOp::Policy(p) => dev.with(|d| world::with(|w| d.set_policy(w, *p))),
                 VOp::Listen(p) => {
@@ -349,16 +351,31 @@ impl Run<'_> {
                     continue;
                 }
                 VOp::Poll => {
-                    let r = g!(what, mgr.poll());
+                    let rx0 = dev.with(|d| d.h.rx_sizes.len());
+                    let r_call = g!(what, mgr.poll());
                     settle(&dev);
-                    let Some((pkt, payload)) = expected_polls.pop_front() else {
-                        if r != Ok(None) {
-                            return Err(format!("{}: nothing was sent by the peer but poll returned {:?}", what, r));
+                    if expected_polls.is_empty() {
+                        if r_call != Ok(None) {
+                            return Err(format!("{}: nothing was sent by the peer but poll returned {:?}", what, r_call));
                         }
                         chk(&dev, &what, 0)?;
                         continue;
-                    };
+                    }
+                    // How many delivered packets one poll works through is the implementation's
+                    // choice (the property fixes what each packet does, not how polls batch them):
+                    // read it off the receive buffers that came back, at least one. Only the last
+                    // packet of the batch can be the source of the call's result; the earlier ones
+                    // must be packets that produce no event, or an event was swallowed.
+                    let reposted = dev.with(|d| d.h.rx_sizes.len()) - rx0;
+                    let batch = reposted.clamp(1, expected_polls.len());
+                    let txn: Vec<Pkt> = dev.with(|d| d.h.tx[tx0..].to_vec());
+                    let what_call = what.clone();
+                    for nth in 0..batch {
+                    let (pkt, payload) = expected_polls.pop_front().unwrap();
                     pending_pkts -= 1;
+                    let last = nth + 1 == batch;
+                    let r = if last { r_call.clone() } else { Ok(None) };
+                    let what = if batch == 1 { what_call.clone() } else { format!("{} [packet {} of the {} this poll consumed, op {}{}]", what_call, nth + 1, batch, pkt.op, if last { "" } else { "; not the last, so it cannot have produced the result" }) };
                     let peer_a = (pkt.src_cid, pkt.src_port);
                     let idx = if pkt.dst_cid == GUEST_CID { find(&conns, peer_a, pkt.dst_port) } else { None };
                     let control_with_data = pkt.op != 5 && pkt.len != 0;
@@ -401,9 +418,9 @@ impl Run<'_> {
                                     Ok(Some(e)) if e.event_type == VsockEventType::ConnectionRequest && e.source == (VsockAddr { cid: peer_a.0, port: peer_a.1 }) && e.destination.port == pkt.dst_port => {}
                                     other => return Err(format!("{}: duplicate request for an existing connection returned {:?}", what, other)),
                                 }
-                                let txn: Vec<Pkt> = dev.with(|d| d.h.tx[tx0..].to_vec());
-                                if txn.len() == 1 && (txn[0].dst_cid, txn[0].dst_port) == peer_a && txn[0].src_port == pkt.dst_port {
-                                    match txn[0].op {
+                                let t0 = txn.get(want_tx.len()).cloned();
+                                if let Some(t0) = t0.filter(|t| (t.dst_cid, t.dst_port) == peer_a && t.src_port == pkt.dst_port) {
+                                    match t0.op {
                                         3 => {
                                             want_tx.push((3, peer_a, pkt.dst_port, vec![], 0, 0));
                                             conns.remove(k);
@@ -420,6 +437,17 @@ impl Run<'_> {
                                 unknown_pkt = true;
                                 if r != Ok(None) {
                                     return Err(format!("{}: packet (op {}) for an unknown connection was reported: {:?}", what, pkt.op, r));
+                                }
+                                // Telling the sender that there is no such connection (a RST naming
+                                // exactly the stray packet's addresses, never in answer to a RST) is
+                                // allowed and creates no state; staying silent is allowed too.
+                                if pkt.dst_cid == GUEST_CID && pkt.op != 3 {
+                                    if let Some(t) = txn.get(want_tx.len()) {
+                                        if t.op == 3 && (t.dst_cid, t.dst_port) == peer_a && t.src_port == pkt.dst_port {
+                                            any_alloc.push(want_tx.len());
+                                            want_tx.push((3, peer_a, pkt.dst_port, vec![], 0, 0));
+                                        }
+                                    }
                                 }
                             }
                             (2, Some(k)) => {
@@ -463,6 +491,10 @@ impl Run<'_> {
                         }
                     }
                     sig.add(5).add(pkt.op as u64).add(idx.is_some() as u64);
+                    }
+                    if batch > 1 {
+                        st.class("poll_consumed_several_packets");
+                    }
                 }
             }
             settle(&dev);
@@ -472,8 +504,8 @@ impl Run<'_> {
                 if tx.len() != want_tx.len() {
                     return Err(format!("{}: driver transmitted {:?}, expected ops {:?}", what, tx.iter().map(|p| (p.op, p.dst_cid, p.dst_port, p.src_port)).collect::<Vec<_>>(), want_tx.iter().map(|x| (x.0, x.1, x.2)).collect::<Vec<_>>()));
                 }
-                for (p, wnt) in tx.iter().zip(want_tx.iter()) {
-                    let ok = p.op == wnt.0 && (p.dst_cid, p.dst_port) == wnt.1 && p.src_port == wnt.2 && p.src_cid == GUEST_CID && p.payload == wnt.3 && p.len as usize == wnt.3.len() && p.flags == wnt.4 && p.ty == 1 && p.buf_alloc == capacity;
+                for (ti, (p, wnt)) in tx.iter().zip(want_tx.iter()).enumerate() {
+                    let ok = p.op == wnt.0 && (p.dst_cid, p.dst_port) == wnt.1 && p.src_port == wnt.2 && p.src_cid == GUEST_CID && p.payload == wnt.3 && p.len as usize == wnt.3.len() && p.flags == wnt.4 && p.ty == 1 && (p.buf_alloc == capacity || any_alloc.contains(&ti));
                     if !ok {
                         return Err(format!("{}: transmitted packet {:?}, expected op {} to {:?} from port {} with {} payload bytes, flags {}, buf_alloc {}", what, p, wnt.0, wnt.1, wnt.2, wnt.3.len(), wnt.4, capacity));
                     }
